@@ -36,7 +36,7 @@ add("names_cu_12", ["C01", "C02", "C18"], timeout=600, est=20, path="registry::h
 
 
 # ---------------------------------------------------------------- C03 leaf readers
-add("names_readers_5", ["C03"], tier="quick", timeout=900, est=400, mem_gb=24, path="registry::h_c03::proofs::",
+add("names_readers_5", ["C03"], tier="thorough", timeout=3600, est=1000, mem_gb=24, path="registry::h_c03_t::proofs::",
     funcs=["Compress::check_compressed_name", "RRIterator::skip_name", "Compress::copy_uncompressed_name", "Compress::raw_name_len_after_decompression", "Compress::raw_name_len", "Compress::raw_name_to_str"],
     bound="the trusted name readers on every name the validator accepts in every buffer of length <= 5 (all bytes, length, offset symbolic); unwind 8",
     assume=["names the validator rejects are not explored further (the readers are only ever called on validated names)"])
@@ -102,7 +102,7 @@ _tpl = {"ttl_digit": "last TTL digit any ASCII byte", "ttl_edge": "TTL 429496729
         "txt_escape_first": "TXT escape \\\\X55: accepted iff X <= '2'"}
 _tpl["ns_lastchar"] = "last character of an NS target: accepted iff letter, digit, hyphen, space or tab"
 for k, v in _tpl.items():
-    _q = k in ("octet_edge", "ns_lastchar")
+    _q = k in ("octet_edge",)
     add("synth_tpl_" + k, ["C13"], tier="quick" if _q else "thorough", timeout=1200 if _q else 7200, est=200 if _q else 3000, mem_gb=24 if _q else 48,
         path="registry::h_c13::proofs::" if _q else "registry::h_c13_t::proofs::", funcs=_f13p,
         bound="RR::from_string on a concrete record text with one symbolic byte X (all 128 ASCII values): " + v + "; accepted <=> in grammar, wire form == RFC 1035 encoding")
